@@ -87,7 +87,7 @@ def closure_failures(sk, g):
             bad.append(f'skeleton node {n.identifier!r} does not carry the metadata of the graph node')
     se = sk.edges
     spairs = [e.get_edge_pair() for e in se]
-    if any(e.get_edge_type().value != '--' for e in se):
+    if any(impl.ety(e) != '--' for e in se):
         bad.append('a skeleton edge is not undirected')
     for a in names:
         for b in names:
@@ -215,7 +215,7 @@ class Lane(LaneBase):
             lines.append('sk obs ' + tok)
             out.append(sk_obs(sk, g))
             for e in g.edges:
-                types_seen.add(e.get_edge_type().value)
+                types_seen.add(impl.ety(e))
             if not oracle:
                 bad = closure_failures(sk, g)
                 if bad:
